@@ -58,16 +58,16 @@ func (y ystore) GetLast(t storage.Table) (*storage.KVPair, error) {
 	sx.Yield("store.GetLast")
 	return y.s.GetLast(t)
 }
-func (y ystore) Close() error                                 { return y.s.Close() }
-func (y ystore) Backup(string) error                          { return nil }
-func (y ystore) GetBackupsInfo() []*storage.BackupInfo        { return nil }
-func (y ystore) DeleteBackup(uint32) error                    { return nil }
+func (y ystore) Close() error                                   { return y.s.Close() }
+func (y ystore) Backup(string) error                            { return nil }
+func (y ystore) GetBackupsInfo() []*storage.BackupInfo          { return nil }
+func (y ystore) DeleteBackup(uint32) error                      { return nil }
 func (y ystore) RestoreFromBackup(uint32, string, string) error { return nil }
 func (y ystore) FetchSnapshot(w io.WriteCloser, a, b uint64, v storage.ValidateF) error {
 	return nil
 }
-func (y ystore) LoadSnapshot(io.ReadCloser) error         { return nil }
-func (y ystore) LastWALSequenceNumber() uint64            { return 0 }
+func (y ystore) LoadSnapshot(io.ReadCloser) error          { return nil }
+func (y ystore) LastWALSequenceNumber() uint64             { return 0 }
 func (y ystore) RegisterMetrics(registry metrics.Registry) {}
 
 // ---------------------------------------------------------------- scenarios
@@ -485,6 +485,11 @@ func TestC10(t *testing.T) {
 			r.Violation(f.Sig, map[string]interface{}{"scenario": s, "schedule": append([]int{}, schedule...), "trace": x2.Trace, "detail": f.Detail})
 		}
 		e.Run()
+		if okr, badr := e.ValidateReplays(); badr > 0 {
+			r.Violation("HARNESS: NONDETERMINISM: an explored schedule does not reproduce when replayed", nil)
+		} else {
+			r.Validated(okr)
+		}
 		r.Eval(e.Execs)
 		r.States(e.Execs)
 		r.Transitions(e.PointsTotal)
